@@ -355,7 +355,23 @@ def run_binary(cid, binp, env, t0, bt, args=None):
     scratch = os.path.join(OUT, ".scratch", cid)
     os.makedirs(scratch, exist_ok=True)
     cmd = [binp, "-test.run", f"^TestVerif{cid}$", "-test.timeout", "0", "-test.count", "1"] + (args or [])
-    p = subprocess.Popen(cmd, cwd=scratch, env=env, stdout=subprocess.PIPE, stderr=subprocess.STDOUT, text=True)
+    p = subprocess.Popen(cmd, cwd=scratch, env=env, stdout=subprocess.PIPE, stderr=subprocess.STDOUT, text=True, errors="replace")
+    # Last line of defence against code under test that wedges the whole test process (a deadlock outside every
+    # family's own watchdog): far beyond any run on the unchanged tree (quick tier: every family stops at its internal
+    # cap of a few minutes), so it cannot fire there; when it fires the process is killed and the hang is the finding.
+    limit = float(os.environ.get("VERIF_PROCESS_LIMIT_S", "2700" if env.get("VERIF_TIER") != "thorough" else "14400"))
+    import threading
+    hung = []
+
+    def _kill():
+        hung.append(True)
+        try:
+            p.kill()
+        except Exception:
+            pass
+    timer = threading.Timer(limit, _kill)
+    timer.daemon = True
+    timer.start()
     saw_violation = False
     saw_summary = False
     for line in p.stdout:
@@ -367,7 +383,17 @@ def run_binary(cid, binp, env, t0, bt, args=None):
         if line.startswith("SUMMARY property=") or line.startswith("REPLAY property="):
             saw_summary = True
     rc = p.wait()
+    timer.cancel()
     sys.stdout.flush()
+    if hung:
+        rdir = os.path.join(OUT, "replays", cid)
+        os.makedirs(rdir, exist_ok=True)
+        path = os.path.join(rdir, "process-hang.txt")
+        with open(path, "w") as fh:
+            fh.write(f"{' '.join(cmd)}\ndid not finish within {limit:.0f} s and was killed\n")
+        print(f"VIOLATION property={cid} replay={path}")
+        print(f"  the test process did not finish within {limit:.0f} s (the code under test wedged it); killed")
+        return 1
     print(f"[run.py] {cid} build={bt:.1f}s total={time.time()-t0:.1f}s rc={rc}")
     if rc == 0 and not saw_violation and saw_summary:
         return 0
